@@ -1,5 +1,6 @@
 """C19 - channel URIs: what the builder is told is what the parser reads back."""
 import itertools
+import os
 
 from vlib import core
 from vlib.term import to_coq, z
@@ -10,7 +11,7 @@ EVAL_FILES = ['Oracle/C19Oracle.v', 'Model/UriBuilder.v', 'Generated/GenUriParse
 CRATES = ['c19']
 MODES = ['debug']     # nothing in the two files depends on overflow checks or optimisation; the model has no mode
 IMPORTS = ('Require Import V.Base.MachineInt V.Model.UriTypes V.Generated.GenUriTables V.Model.Uri V.Model.UriBuilder '
-           'V.Model.UriSpec V.Oracle.C19Oracle.')
+           'V.Model.UriSpec V.Oracle.C19Oracle V.Model.UriParserSem V.Generated.GenUriParser.')
 K1_DEPENDS = ['c19parser_translate']    # Generated/GenUriParser.v (parse / fmt / add_session_id as syntax trees)
 PER_CASE_TIMEOUT = 5.0
 RULE = ('kinds: pv = string of the URI grammar built from (prefix in {"", aeron-spy}, media, 0..20 key=value pairs with duplicate keys, '
@@ -477,9 +478,17 @@ def capi(ops):
     return '[' + '; '.join('%s %s' % (API[o[0]], ' '.join(cstr(x) for x in o[1:])) for o in ops) + ']'
 
 
+# C19_MODEL=generated: the model of the `p` / `pv` cases is the interpreter run on the translated trees (equal to parse_obs by
+# C19_k1_observations on an unchanged tree). Used to test the interpreter: on a changed source that still translates it must
+# agree with the changed implementation (docs/reports/C19.md, "fidelity of the interpreter").
+GENERATED_MODEL = os.environ.get('C19_MODEL') == 'generated'
+
+
 def model_expr(c, mode):
     k = c['kind']
     if k in ('p', 'pv'):
+        if GENERATED_MODEL:
+            return 'gparse_obs gen_parser gen_display %s' % cstr(case_string(c))
         return 'parse_obs %s' % cstr(case_string(c))
     if k == 's':
         return 'sid_obs %s %s' % (cstr(c['s']), z(c['sid']))
@@ -604,11 +613,12 @@ def extra_checks(run):
     out = [(ok, 'K1 tables_ok (setter and emit tables read off channel_uri_string_builder.rs)', detail)]
     # K1, parser side: the three functions of channel_uri.rs were translated (the proof that the translated trees are the model
     # is C19_k1_parser / C19_k1_display / C19_k1_session_id of Props/C19.v)
-    vals = core.coq_eval('C19_parser_k1', IMPORTS + ' Require Import V.Model.UriParserSem V.Generated.GenUriParser.',
-                         ['(gen_parser_ok, gen_display_ok, sid_ok gen_sid)'])
+    vals = core.coq_eval('C19_parser_k1', IMPORTS,
+                         ['(gen_parser_ok, gen_display_ok, sid_ok gen_sid, gen_accessors_ok)'])
     flags = [x == ('app', 'true', []) for x in vals[0][1]]
     out.append((all(flags), 'K1 parser side translated (ChannelUri::parse, Display::fmt, add_session_id -> Generated/GenUriParser.v)',
-                'parse: %s; fmt: %s; add_session_id: %s' % tuple('syntax tree' if f else 'NOT UNDERSTOOD (stuck placeholder)' for f in flags)))
+                'parse: %s; fmt: %s; add_session_id: %s; accessors prefix/media/get/get_or_default/put/remove/contains_key: %s' % tuple(
+                    'as expected' if f else 'CHANGED / NOT UNDERSTOOD' for f in flags)))
     # the corners of the grammar the task names were all generated
     want = sorted(CORNERS) + sorted(MALFORMED_CORNERS) + ['small-scope']
     missing = [n for n in want if not LAST_CORNERS.get(n)]
